@@ -161,7 +161,7 @@ PROPS = {
     },
     "C12": {
         "props_file": "Props/C12.v",
-        "theorems": ["c12_kill_guard", "c12_kill_not_early", "c12_should_kill_means", "c12_no_create_after_kill", "c12_kill_terminal", "c12_pending_guard", "c12_pending_disabled", "c12_pending_effective_value", "c12_force_guard"],
+        "theorems": ["c12_kill_guard", "c12_kill_not_early", "c12_should_kill_means", "c12_no_create_after_kill", "c12_kill_terminal", "c12_kill_sweep_complete", "c12_pending_sweep_complete", "c12_pending_guard", "c12_pending_disabled", "c12_pending_effective_value", "c12_force_guard"],
         "families": [{"name": "jobsync", "n_quick": 120, "n_thorough": 3000, "shard_cap": 40}],
         "rule": JOBSYNC_RULE,
         "trusted": JOB_TRUSTED + JOBSYNC_TRUSTED,
@@ -171,7 +171,7 @@ PROPS = {
     },
     "C13": {
         "props_file": "Props/C13.v",
-        "theorems": ["c13_finalizer_order", "c13_ttl_not_early", "c13_ttl_effective_value", "c13_ttl_armed", "c13_job_removed_after_tasks", "c13_pod_cache_covers_api", "c13_deletion_completes"],
+        "theorems": ["c13_finalizer_order", "c13_ttl_not_early", "c13_ttl_effective_value", "c13_ttl_armed", "c13_ttl_fires", "c13_job_removed_after_tasks", "c13_pod_cache_covers_api", "c13_deletion_completes"],
         "families": [{"name": "jobsync", "n_quick": 120, "n_thorough": 3000, "shard_cap": 40}],
         "rule": JOBSYNC_RULE,
         "trusted": JOB_TRUSTED + JOBSYNC_TRUSTED,
@@ -211,7 +211,7 @@ PROPS = {
     },
     "C03": {
         "props_file": "Props/C03.v",
-        "theorems": ["c03_events", "c03_new_only", "c03_then_c01", "c03_stop_on_disable", "c03_stop_on_delete", "c03_start_on_create_refuted", "c03_recreate_refuted"],
+        "theorems": ["c03_events", "c03_new_only", "c03_then_c01", "c03_last_update_wins", "c03_stop_on_disable", "c03_stop_on_delete", "c03_start_on_create_refuted", "c03_recreate_refuted"],
         "families": [{"name": "cron", "n_quick": 160, "n_thorough": 4000}],
         "rule": "same stream as C01 (cron); the monitor's C03 signatures judge requests against the JobConfig's API state after each delivered event",
         "trusted": CRON_TRUSTED,
